@@ -278,3 +278,28 @@ Proof.
   - reflexivity.
   - fold s in H1, H2. rewrite H2 in H1. exact H1.
 Qed.
+
+(* ---------------------------------------------------------------- specs used by the composed model *)
+Lemma sc_credit_spec s quota :
+  sent_data s <= max_data s ->
+  exists s' blk, sc_credit s quota = Some (s', N.min (max_data s - sent_data s) quota, blk)
+                 /\ sent_data s' = sent_data s + N.min (max_data s - sent_data s) quota
+                 /\ max_data s' = max_data s.
+Proof.
+  intro H. unfold sc_credit, sc_available.
+  destruct (N.leb_spec (sent_data s) (max_data s)); [|lia].
+  set (q := N.min (max_data s - sent_data s) quota).
+  assert (Hq : q <= max_data s - sent_data s) by (unfold q; lia). clearbody q.
+  unfold sc_commit, sc_available. cbn [sent_data max_data flow_limited].
+  destruct (N.leb_spec (sent_data s + q) (max_data s)); [|lia].
+  destruct ((max_data s - (sent_data s + q) =? 0) && negb (flow_limited s)); eexists _, _; cbn; eauto.
+Qed.
+
+Lemma sc_return_spec s x :
+  x <= sent_data s -> sent_data s - x <= max_data s ->
+  sc_return_back s x = Some (mksctl (sent_data s - x) (max_data s) (flow_limited s)).
+Proof.
+  intros H1 H2. unfold sc_return_back, sc_available. cbn [sent_data max_data].
+  destruct (N.leb_spec x (sent_data s)); [|lia].
+  destruct (N.leb_spec (sent_data s - x) (max_data s)); [reflexivity|lia].
+Qed.
